@@ -15,8 +15,10 @@ TARGETS = ["Base/Corr.vo", "C11/Model.vo", "C11/Spec.vo", "C11/ProofsMap.vo", "C
            # round 3
            "C03/ProofsMJ2.vo", "C03/PropsR3.vo",
            # round 6: read-only sparse vectors, views, random-access cache
-           "C03/ModelC.vo", "C03/CorrC.vo", "C03/SpecC.vo", "C03/ProofsC.vo", "C03/ProofsC2.vo", "C03/PropsC.vo"]
-PROPS = ["C03/Props.v", "C03/PropsR2.v", "C03/PropsM.v", "C03/PropsR3.v", "C03/PropsC.v"]
+           "C03/ModelC.vo", "C03/CorrC.vo", "C03/SpecC.vo", "C03/ProofsC.vo", "C03/ProofsC2.vo", "C03/PropsC.vo",
+           # round 7: Reset under live views and handles
+           "C03/ProofsR7.vo", "C03/PropsR7.vo"]
+PROPS = ["C03/Props.v", "C03/PropsR2.v", "C03/PropsM.v", "C03/PropsR3.v", "C03/PropsC.v", "C03/PropsR7.v"]
 PARTIAL = ("Proved in Coq, for ALL worlds/vectors/matrices/operands (no bounds), about the hand-written models coq/C03/Model.v "
            "(vectors) and coq/C03/ModelM.v (whole matrices: header + one sparse vector / row-major list), both on top of the "
            "shared sparse-vector model coq/C11/Model.v (heap of cells + value map + ordered key set standing for the AVL index, "
@@ -55,10 +57,27 @@ PARTIAL = ("Proved in Coq, for ALL worlds/vectors/matrices/operands (no bounds),
            "with sparse operands).  ConstIteratorFrom(i) = exactly the stored entries with index >= i for every i (proved; "
            "the restart at the first entry, C03-CONST-ITERFROM-WRAP, was repaired by 1e92a33 and is a regression case of "
            "the corpus now).  Index reads outside [0, n) return 0 on const vectors "
-           "(no guard; dense and sparse vectors panic): modelled, not judged (guards are C20's).")
+           "(no guard; dense and sparse vectors panic): modelled, not judged (guards are C20's).  "
+           "ROUND 7 - Reset under live views and handles (coq/C03/PropsR7.v, on C11's heap-of-cells model of reset and "
+           "SLICE and the VReset step of coq/C03/Model.v): proved for ALL heaps/vectors/windows/indices: Reset zeroes every "
+           "stored scalar and no other cell, changes no map / index / dimension of any vector (handles and views stay "
+           "attached), SLICE(a,b) holds cells of its parent only (views of views too), a view taken before the Reset reads 0 "
+           "everywhere afterwards (= a window of the dense twin's zeroed backing array), a write through a handle taken "
+           "before the Reset is read back through the receiver and every view holding that cell, vectors sharing no cell "
+           "are unchanged.  NOT proved / only Go-level (harness/c03/viewalias.go, all-dense vs all-sparse vs "
+           "all-sparse-with-stored-zeros programs with generator-computed expectations): the same for sparse MATRICES "
+           "(Reset by iterator, ConstRow, T(), matrix Slice, AsVector), r.Set(a) / element-wise operations whose operand IS "
+           "the receiver or a full-range Slice/ConstSlice view of it (a.Set(a) has no theorem: own_map_spec requires an "
+           "operand that does not read the receiver; aliased matrix Set is tied by the correspondence + this stream), "
+           "partially overlapping windows (never generated: the result is iteration-order dependent by design).  The C03 "
+           "vector correspondence has no Slice operation (C11's has); sparse views are references for EXISTING entries "
+           "only (C11-SLICEWT, F-SPT-REF) and the sparse iterators purge zero entries (C03-ZERO-ENTRY-PURGE, new known "
+           "finding, probed on every run): the stream creates handles before views, never creates entries afterwards, "
+           "takes matrix handles on non-zero entries only and uses views as operands last.")
 KNOWN_PROPOSED = os.path.join(vlib.ROOT, "corpus/C03/known_findings_proposed.json")
 CORPUS = os.path.join(vlib.ROOT, "corpus/C03/corpus.jsonl")
 SPECIAL_CORPUS = os.path.join(vlib.ROOT, "corpus/C03/special.jsonl")
+VSEQ_CORPUS = os.path.join(vlib.ROOT, "corpus/C03/vseq.jsonl")
 
 
 def known_list():
@@ -177,6 +196,39 @@ def chunt(ctx, binary, bad):
     return False
 
 
+def vhunt(ctx, binary):
+    """Round 7: multi-step view / handle / alias programs (harness/c03/viewalias.go), all-dense vs all-sparse vs
+    all-sparse-with-stored-zeros: r.Set(a) and element-wise operations whose operand is the receiver or a
+    full-range Slice/ConstSlice view of it; handles and views taken BEFORE a Reset, then read / used as operands /
+    written through.  Returns True when a failing input was reported."""
+    n = 1200 if ctx.tier == "quick" else 12000
+    rc, out = vlib.sh([binary, "--extra", "vhunt:" + VSEQ_CORPUS, "--n", str(n), "--seed", str(ctx.seed), "--tier", ctx.tier,
+                       "--out", ctx.dir], timeout=1500, env=vlib.go_env())
+    hp = os.path.join(ctx.dir, "vhunt.json")
+    if rc != 0 or not os.path.exists(hp):
+        ctx.violation({"obligation": "C03 view/alias stream run", "log": out[-3000:]}, False,
+                      "harness failed on the implementation (crash in the view / handle / alias stream)")
+        return False
+    h = json.load(open(hp))
+    ctx.cov.setdefault("extra", {})["view_alias_stream"] = {k: h.get(k) for k in (
+        "tried", "runs", "elements_compared", "per_class", "rule")}
+    ctx.log("view/alias stream: %s programs x 3 storages, %s elements compared (%s)" % (
+        h.get("tried"), h.get("elements_compared"), h.get("per_class")))
+    listed = {f["id"]: f for f in known_list()}
+    kn = h.get("known") or {}
+    if kn:
+        fid = "C03-ZERO-ENTRY-PURGE"
+        what = listed[fid]["what"] if fid in listed else "(class matched in harness/c03/viewalias.go, not listed yet)"
+        ctx.known_finding(fid, what + " | witness: " + " || ".join(kn[k] for k in sorted(kn)))
+    elif "C03-ZERO-ENTRY-PURGE" in listed:
+        ctx.notes.append("known finding C03-ZERO-ENTRY-PURGE no longer reproduces in the view/alias run")
+    if h.get("found"):
+        ctx.violation({"vseq": h["vseq"], "failure": h["failure"]}, True,
+                      "result depends on storage (aliased operand / view or handle held across Reset): " + h["failure"])
+        return True
+    return False
+
+
 def known(ctx, binary):
     """Replay the witnesses of the recorded findings on the implementation."""
     rc, out = vlib.sh([binary, "--extra", "known", "--out", ctx.dir], timeout=300, env=vlib.go_env())
@@ -252,7 +304,8 @@ def run(ctx):
             ("C03.PropsR2", vlib.theorem_names(os.path.join(vlib.COQ, "C03/PropsR2.v"))),
             ("C03.PropsM", vlib.theorem_names(os.path.join(vlib.COQ, "C03/PropsM.v"))),
             ("C03.PropsR3", vlib.theorem_names(os.path.join(vlib.COQ, "C03/PropsR3.v"))),
-            ("C03.PropsC", vlib.theorem_names(os.path.join(vlib.COQ, "C03/PropsC.v")))]
+            ("C03.PropsC", vlib.theorem_names(os.path.join(vlib.COQ, "C03/PropsC.v"))),
+            ("C03.PropsR7", vlib.theorem_names(os.path.join(vlib.COQ, "C03/PropsR7.v")))]
     ctx.cov["theorems"] = [t for _, ths in mods for t in ths]
     if ok:
         ctx.cov["print_assumptions"] = vlib.print_assumptions("C03", mods, ctx.dir)
@@ -268,6 +321,7 @@ def run(ctx):
     known(ctx, binary)
     special(ctx, binary)
     cfound = chunt(ctx, binary, bad)
+    vfound = vhunt(ctx, binary)
     if bad.get("ccases") and not cfound:
         ctx.violation({"ccase": bad["ccases"][0],
                        "obligation": "correspondence C03.CorrC.checkc (model vs implementation, read-only sparse vectors)"},
@@ -302,6 +356,13 @@ def replay(ctx, path):
         print("differences between storages: %d, matched by recorded classes %s, unmatched: %d" % (
             res["differences"], res["known_ids"], res["unmatched"]))
         return 1 if res["fails"] else 0
+    if "vseq" in rp:
+        hin = os.path.join(ctx.dir, "vhunt_in.json")
+        json.dump({"vseq": rp["vseq"]}, open(hin, "w"))
+        vlib.sh([binary, "--extra", "vhunt", "--replay", hin, "--n", "0", "--out", ctx.dir], env=vlib.go_env())
+        h = json.load(open(os.path.join(ctx.dir, "vhunt.json")))
+        print("view/alias program on the implementation: %s" % (h["failure"] if h.get("found") else "all storages agree"))
+        return 1 if h.get("found") else 0
     if "ccase" in rp or "stream" in rp:
         hin = os.path.join(ctx.dir, "chunt_in.json")
         if "stream" in rp:
